@@ -6,8 +6,11 @@ package c13
 import (
 	"encoding/json"
 	"fmt"
-	"github.com/Syuparn/pangaea/object"
+	"regexp"
+	"sort"
 	"strings"
+
+	"github.com/Syuparn/pangaea/object"
 
 	"panmc/internal/core"
 	"panmc/internal/panrun"
@@ -18,7 +21,8 @@ func init() {
 	core.Register(&core.Check{
 		ID:    "C13",
 		Level: "fault_enumeration",
-		Rule: "all chains of <=2 (thorough <=3 over a reduced alphabet) steps over a 33-step alphabet (property calls with arguments, operator property calls, user methods, absent and non-callable properties, literal calls returning value/nil, " +
+		Rule: "name sweep: every identifier-named property reachable along the prototype chain of 10 receivers (discovered at run time) as a one-step chain under every accessor - names that the Either objects answer themselves on the unchanged tree are the known proxy class, any other name must reach the value; " +
+			"all chains of <=2 (thorough <=3 over a reduced alphabet) steps over a 33-step alphabet (property calls with arguments, operator property calls, user methods, absent and non-callable properties, literal calls returning value/nil, " +
 			"raising each of 11 error kinds explicitly and failing naturally, variable call) x 6 receivers x 11 accessors, plus the chain without any step over 13 receivers (incl. results of earlier try chains, successful and failed, a function, prototypes); each wrapped chain `v.try.s1.s2.acc` is compared with what the outcome of the plain chain `v.s1.s2` (same batch) implies, including the stdout trace (skip after failure); " +
 			"non-trivial = chain with at least one failing step or an accessor that distinguishes value from error; distinct = distinct (receiver, steps, accessor); round 7: Receivers also include children of a concrete int and str that carry the object's own methods, and a map with a key spelled like a property (known finding).; round 8: One try chain written once is evaluated for receivers r1, r2, r1 (132 chains x 4 accessors x 20 receiver pairs); steps are also called with nil arguments.",
 		Assumptions: []string{
@@ -164,10 +168,7 @@ var accessors = []accessor{
 	}},
 	{".err.msg", func(e bool, v, k, m string) (string, string, string) {
 		if e {
-			if strings.Contains(m, `"`) {
-				return "`" + m + "`", "", "" // a str containing a double quote is printed between backquotes
-			}
-			return fmt.Sprintf("%q", m), "", ""
+			return object.NewPanStr(m).Inspect(), "", "" // printed the way the interpreter prints a str (no escaping of backslashes)
 		}
 		return "", "NoPropErr", "*"
 	}},
@@ -237,6 +238,9 @@ func keyOf(t tcase, class string, plain, w panrun.Obs) string {
 				tag = "multi-parameter-literal-step-on-array"
 			}
 		}
+	}
+	if tag == "" && strings.HasPrefix(t.Recv, "{|") && len(t.Steps) == 1 && sweepName.MatchString(strings.TrimPrefix(t.Steps[0].Src, ".")) && plain.Kind == "value" {
+		tag = "function-receiver" // a function value cannot be indexed with the step name (known finding)
 	}
 	if tag != "" {
 		return "proxy/" + tag
@@ -520,6 +524,69 @@ func judgeStored(c *core.Ctx, t storedCase, o panrun.Obs) {
 	}
 }
 
+// ---------------------------------------------------------------- every property name of the receiver as a step
+
+// Names that the Either objects answer themselves on the unchanged tree (own properties of EitherVal/EitherErr/Either
+// incl. the Wrappable mix-in, Obj incl. Iterable, BaseObj): a step of such a name runs on the wrapper (known finding
+// proxy/step-name-defined-on-wrapper). The list is fixed here on purpose: a name that is ADDED to the wrapper later
+// starts to shadow a step that used to reach the value, and must not be excused.
+var wrapperNamesToday = map[string]bool{}
+
+func init() {
+	for _, n := range strings.Fields("A abandon catch err fmap ignore or val end err? newErr newVal val? B S acc all? ancestors any? append asFor? avg bro callProp case chain chunk del digest doUntil doWhile empty? exclude find first flipflop index indices items keyBy keys kindOf? last lazyMap map max min new nil? p patch prepend print puts reduce repr rindex select std sum tally tap traverse try until values which while withI zip at bear proto") {
+		wrapperNamesToday[n] = true
+	}
+}
+
+var sweepSkip = map[string]bool{"p": true, "puts": true, "print": true, "doWhile": true, "doUntil": true, "while": true, "until": true, "import": true, "invite!": true, "read": true, "exit": true, "eval": true, "evalEnv": true, "argv": true, "try": true, "assert": true, "assertEq": true, "assertRaises": true}
+
+var sweepName = regexp.MustCompile(`^[a-zA-Z][a-zA-Z0-9]*[?!]?$`)
+
+func genSweep(c *core.Ctx, emit func(tcase)) {
+	r := c.R()
+	for _, recv := range []string{"[5]", "[1, 2]", `"ab"`, "5", "1.5", "(1:3)", "%{1: 2}", "{a: 1}", "nil", "{|x| x}"} {
+		o := r.EvalSrc(recv, "")
+		if o.Kind != "value" {
+			c.HarnessError("sweep receiver %s does not evaluate: %s", recv, o.Short())
+			return
+		}
+		seen := map[string]bool{}
+		var names []string
+		for v := o.Val; v != nil; v = v.Proto() {
+			po, ok := v.(*object.PanObj)
+			if !ok {
+				continue
+			}
+			for h := range *po.Pairs {
+				s, ok := object.SymHash2Str(h)
+				if !ok {
+					continue
+				}
+				n := s.(*object.PanStr).Value
+				if _, isFn := (*po.Pairs)[h].Value.(*object.PanFunc); !isFn {
+					if _, isBuiltIn := (*po.Pairs)[h].Value.(*object.PanBuiltIn); !isBuiltIn {
+						continue // a property that is not callable: the known class proxy/non-callable-property-step (receivers oo, n5, sa)
+					}
+				}
+				if sweepName.MatchString(n) && !seen[n] && !sweepSkip[n] {
+					seen[n] = true
+					names = append(names, n)
+				}
+			}
+		}
+		sort.Strings(names)
+		for _, n := range names {
+			st := step{Src: "." + n}
+			if wrapperNamesToday[n] {
+				st.Tag = "wrapper-defined"
+			}
+			for a := range accessors {
+				emit(tcase{Recv: recv, Steps: []step{st}, Acc: a})
+			}
+		}
+	}
+}
+
 func run(c *core.Ctx) {
 	n := 0
 	// every case contributes two thunks (plain, wrapped); plain results are reused inside a batch
@@ -528,6 +595,10 @@ func run(c *core.Ctx) {
 	total := tk.Batched(c, 1000, prelude, func(emit func(pair)) {
 		deep = c.Thorough()
 		gen(true, func(t tcase) {
+			emit(pair{t, false})
+			emit(pair{t, true})
+		})
+		genSweep(c, func(t tcase) {
 			emit(pair{t, false})
 			emit(pair{t, true})
 		})
